@@ -99,7 +99,7 @@ def r1_gate(ctx, F):
     b = F.method(PFS, "validate_path_component")
     v = vf.VF(b, inline_depth=0)
     r = vf.render(v.ret(), b, short=True, vfx=v)
-    ctx.check("R1-name-gate", "passthrough-wrapper", "vfs::validate_path_component(name)" in r and "self.cfg.do_import" in r and r.count("=> Ok(())") == 1,
+    ctx.check("R1-name-gate", "passthrough-wrapper", r == "phi{!self.cfg.do_import => Ok(()) | self.cfg.do_import => vfs::validate_path_component(name)}",
               "PassthroughFs::validate_path_component may skip validation for more than the under-VFS case: %s" % r[:300], loc=b.loc(), detail=r[:200])
     # the predicate: '/' anywhere in the complete name, and "." / ".."
     b = F.fn("api::vfs::is_safe_path_component")
@@ -114,10 +114,25 @@ def r1_gate(ctx, F):
               "is_safe_path_component does not search the complete name for '/' (it searches `%s`)" % (vf.render(v.call_args(cs[0])[0], b, short=True)[:120] if cs else "?"), loc=b.loc())
     r = vf.render(v.ret(), b, short=True, vfx=v)
     ctx.check("R1-name-gate", "predicate/dots", "is_dot_or_dotdot(name)" in r, "is_safe_path_component no longer rejects '.' and '..'", loc=b.loc())
+    C = "impl [T]::contains(CStr::to_bytes_with_nul(name), 47)"
+    ctx.check("R1-name-gate", "predicate/polarity", vf.same_text(r.replace("SLASH_ASCII", "47"), "phi{!%s => Not(vfs::is_dot_or_dotdot(name)) | %s => 0}" % (C, C)),
+              "is_safe_path_component must be `no '/' in the name and not '.'/'..'`: %s" % r[:300], loc=b.loc())
+    d = F.fn("api::vfs::is_dot_or_dotdot")
+    ctx.fn_seen(d)
+    dv = vf.VF(d, inline_depth=0)
+    dr = vf.render(dv.ret(), d, short=True, vfx=dv)
+    S1 = "impl [T]::starts_with(CStr::to_bytes_with_nul(name), k(api::vfs::CURRENT_DIR_CSTR))"
+    S2 = "impl [T]::starts_with(CStr::to_bytes_with_nul(name), k(api::vfs::PARENT_DIR_CSTR))"
+    ok = dr in ("phi{!%s => %s | %s => 1}" % (S1, S2, S1), "phi{!%s => %s | %s => 1}" % (S2, S1, S2), "BitOr(%s, %s)" % (S1, S2), "BitOr(%s, %s)" % (S2, S1))
+    cur = (F.consts.get("api::vfs::CURRENT_DIR_CSTR") or {}).get("bytes")
+    par = (F.consts.get("api::vfs::PARENT_DIR_CSTR") or {}).get("bytes")
+    ctx.check("R1-name-gate", "predicate/dot-names", ok and cur == [46, 0] and par == [46, 46, 0],
+              "is_dot_or_dotdot must compare the NUL-terminated name with \".\\0\" and \"..\\0\" (got %s; constants %s / %s)" % (dr[:200], cur, par), loc=d.loc())
     b = F.fn("api::vfs::validate_path_component")
     v = vf.VF(b, inline_depth=0)
     r = vf.render(v.ret(), b, short=True, vfx=v)
-    ctx.check("R1-name-gate", "validate/einval", "vfs::is_safe_path_component(name)" in r and "Err(Error::from_raw_os_error(EINVAL))" in r, "validate_path_component: %s" % r[:200], loc=b.loc())
+    ctx.check("R1-name-gate", "validate/einval", r == "phi{!vfs::is_safe_path_component(name) => Err(Error::from_raw_os_error(EINVAL)) | vfs::is_safe_path_component(name) => Ok(())}",
+              "validate_path_component must refuse exactly the unsafe names: %s" % r[:200], loc=b.loc())
     ctx.floor("R1-name-gate", 50)
 
 
